@@ -126,6 +126,16 @@ func (fr *Frame) call(instr ssa.Instruction, cc *ssa.CallCommon, pos token.Pos) 
 		}
 	}
 	res := fr.dispatchCall(instr, cc, pos, names)
+	if c := fr.C; c != nil {
+		for _, sn := range c.Snaps {
+			if nameMatches(names, sn.Callee) {
+				if _, dup := fr.R.snaps[sn.Alias]; dup {
+					fr.R.unsupported("snapshot %s is taken at more than one call site", sn.Alias)
+				}
+				fr.R.snaps[sn.Alias] = fr.st.Clone()
+			}
+		}
+	}
 	// call log
 	if c := fr.R.Contract; c != nil {
 		for _, tr := range c.Tracks {
@@ -538,6 +548,13 @@ func (fr *Frame) contractVars(c *Contract, fn *ssa.Function, cc *ssa.CallCommon,
 			ev := valToEV(args[i], ty)
 			vars[p.Name()] = ev
 			vars[fmt.Sprintf("$%d", i)] = ev
+			if i < len(cc.Args) && !cc.IsInvoke() {
+				if mi, ok := cc.Args[i].(*ssa.MakeInterface); ok {
+					inner := EV{T: fr.termOf(fr.val(mi.X)), Ty: mi.X.Type()}
+					vars[p.Name()+"!inner"] = inner
+					vars[fmt.Sprintf("$%d!inner", i)] = inner
+				}
+			}
 		}
 		return vars
 	}
@@ -759,6 +776,27 @@ func (fr *Frame) havocTarget(ctx *EvalCtx, e Expr) {
 		case "chanState":
 			h.Havoc(fr.st, chanClosedComp)
 			return
+		case "reach":
+			// everything reachable (by type) from the argument; for an interface-typed argument the static type
+			// of the value boxed at the call site is used
+			name := identName(e.Args[0])
+			var ty types.Type
+			if in, ok := ctx.vars[name+"!inner"]; ok {
+				ty = in.Ty
+			} else if v, ok := ctx.vars[name]; ok {
+				ty = v.Ty
+			}
+			if ty == nil {
+				ctx.fail("reach(%s): unknown argument", name)
+			}
+			if _, isIface := types.Unalias(ty).Underlying().(*types.Interface); isIface {
+				h.HavocAll(fr.st)
+				return
+			}
+			for _, comp := range fr.reachComps(ty) {
+				h.Havoc(fr.st, comp)
+			}
+			return
 		case "all":
 			var x EV
 			ctx.withFrameState(func() { x = ctx.eval(e.Args[0]) })
@@ -811,4 +849,51 @@ func (c *EvalCtx) tryBool(e Expr) (t Term, ok bool) {
 		}
 	}()
 	return c.Bool(e), true
+}
+
+// reachComps lists the heap components reachable by type from a value of type t (interface-typed leaves excluded:
+// decoders replace such values, they do not write through them).
+func (fr *Frame) reachComps(t types.Type) []string {
+	seen := map[string]bool{}
+	var out []string
+	var visit func(t types.Type, depth int)
+	visit = func(t types.Type, depth int) {
+		t = types.Unalias(t)
+		k := t.String()
+		if seen[k] || depth > 8 {
+			return
+		}
+		seen[k] = true
+		switch u := t.Underlying().(type) {
+		case *types.Pointer:
+			el := types.Unalias(u.Elem())
+			if st, ok := el.Underlying().(*types.Struct); ok {
+				if fr.isOpaqueStruct(el) {
+					out = append(out, boxComp(fr.R.TM.SortOf(el)))
+				}
+				for i := 0; i < st.NumFields(); i++ {
+					out = append(out, fieldComp(el, st.Field(i).Name()))
+					visit(st.Field(i).Type(), depth+1)
+				}
+			} else {
+				out = append(out, boxComp(fr.R.TM.SortOf(el)))
+				visit(el, depth+1)
+			}
+		case *types.Slice:
+			out = append(out, elemsComp(fr.R.TM.SortOf(u.Elem())))
+			visit(u.Elem(), depth+1)
+		case *types.Map:
+			ks, vs := fr.mapSorts(u)
+			out = append(out, mapDomComp(ks, vs), mapValComp(ks, vs), mapLenComp)
+			visit(u.Elem(), depth+1)
+		case *types.Struct:
+			for i := 0; i < u.NumFields(); i++ {
+				visit(u.Field(i).Type(), depth+1)
+			}
+		case *types.Chan:
+			out = append(out, chanClosedComp)
+		}
+	}
+	visit(t, 0)
+	return out
 }
